@@ -11,7 +11,7 @@ from specs.inotify_read import IRWorld, ReadEvents, FILE
 from specs import c08, c10, inotify_emitter
 
 PROP = "C07"
-GROUNDABLE = False
+GROUNDABLE = True
 BATTERY = "c07_battery.py"
 
 
